@@ -124,9 +124,10 @@ Record link_done (sh : shape) (b : nat) (s : st) (m : mst) : Prop := {
   ld_block : bfailed m = true -> ist (s_img s) (OBlock b) = Failed;
   ld_pf : PF sh s }.
 
-Definition link_block (sh : shape) (b : nat) (s : st) (m : mst) : Prop :=
-  common s m /\
-  ((cur s b /\ link_cur sh b s m) \/ (~ cur s b /\ link_before sh b s m) \/ (past s b /\ link_done sh b s m)).
+Definition regimes (sh : shape) (b : nat) (s : st) (m : mst) : Prop :=
+  (cur s b /\ link_cur sh b s m) \/ (~ cur s b /\ link_before sh b s m) \/ (past s b /\ link_done sh b s m).
+
+Definition link_block (sh : shape) (b : nat) (s : st) (m : mst) : Prop := common s m /\ regimes sh b s m.
 
 Definition Rb (sh : shape) (b : nat) (s : st) (m : mst) : Prop := inv sh s /\ link_block sh b s m.
 
@@ -159,30 +160,23 @@ Proof.
   intros (Nb & _) Ho. apply ev_img_other. intros st n ok r ->. simpl in Nb. congruence.
 Qed.
 
-Lemma entered_after sh sc m e : entered sh sc (m_after m e) = entered sh sc m.
-Proof.
-  destruct (m_after_fields m e) as (F1 & _ & _ & F4). unfold entered. rewrite F1.
-  change (m_byp (m_after m e)) with (m_track (m_after m e) GBypass). now rewrite F4.
-Qed.
+(* a monitor step that leaves the tracks and the started flag alone, while block b's objects keep their image *)
+Section Keep.
+  Variables (sh : shape) (b : nat) (s s' : st) (m m' : mst).
+  Hypothesis F1 : m_started m' = m_started m.
+  Hypothesis F4 : forall g, m_track m' g = m_track m g.
+  Hypothesis fr_ist : forall o, obj_block o = Some b -> ist (s_img s') o = ist (s_img s) o.
 
-Lemma bfailed_after m e : bfailed (m_after m e) = bfailed m.
-Proof.
-  destruct (m_after_fields m e) as (_ & _ & _ & F4). unfold bfailed.
-  change (m_cont (m_after m e)) with (m_track (m_after m e) GCont).
-  change (m_def (m_after m e)) with (m_track (m_after m e) GDeferred). now rewrite !F4.
-Qed.
-
-Section Foreign.
-  Variables (sh : shape) (b : nat) (s s' : st) (m : mst) (e : event).
-  Hypothesis Fe : foreign b e.
-  Hypothesis Ei : s_img s' = ev_img e (s_img s).
-
-  Lemma fr_ist o : obj_block o = Some b -> ist (s_img s') o = ist (s_img s) o.
-  Proof. intro Ho. unfold ist. rewrite Ei. f_equal. now apply (foreign_frame b). Qed.
-
-  Lemma link_before_after : link_before sh b s m -> link_before sh b s' (m_after m e).
+  Lemma entered_keep : entered sh (SBlock b) m' = entered sh (SBlock b) m.
+  Proof. unfold entered. rewrite F1. change (m_byp m') with (m_track m' GBypass). now rewrite F4. Qed.
+  Lemma bfailed_keep : bfailed m' = bfailed m.
   Proof.
-    intros [L1 L2 L3 L4 L5]. destruct (m_after_fields m e) as (F1 & _ & _ & F4). constructor.
+    unfold bfailed. change (m_cont m') with (m_track m' GCont). change (m_def m') with (m_track m' GDeferred). now rewrite !F4.
+  Qed.
+
+  Lemma link_before_keep : link_before sh b s m -> link_before sh b s' m'.
+  Proof.
+    intros [L1 L2 L3 L4 L5]. constructor.
     - now rewrite F1.
     - intros g Tg. rewrite F4. auto.
     - rewrite fr_ist; auto.
@@ -190,26 +184,27 @@ Section Foreign.
     - intros g. rewrite fr_ist; auto.
   Qed.
 
-  Lemma link_done_after : PF sh s' -> link_done sh b s m -> link_done sh b s' (m_after m e).
+  Lemma link_done_keep : PF sh s' -> link_done sh b s m -> link_done sh b s' m'.
   Proof.
-    intros Pf [D1 D2 D3 D4 D5 _]. destruct (m_after_fields m e) as (F1 & _ & _ & F4). constructor.
+    intros Pf [D1 D2 D3 D4 D5 _]. constructor.
     - intros g Tg. rewrite F4. auto.
-    - intro Hd. rewrite entered_after. change (m_def (m_after m e)) with (m_track (m_after m e) GDeferred). rewrite F4. auto.
-    - change (m_cont (m_after m e)) with (m_track (m_after m e) GCont). rewrite F4. intro Q.
+    - intro Hd. rewrite entered_keep. change (m_def m') with (m_track m' GDeferred). rewrite F4. auto.
+    - change (m_cont m') with (m_track m' GCont). rewrite F4. intro Q.
       destruct (D3 Q) as [A B]. split; auto. rewrite fr_ist; auto.
-    - change (m_def (m_after m e)) with (m_track (m_after m e) GDeferred). rewrite F4. intro Q.
+    - change (m_def m') with (m_track m' GDeferred). rewrite F4. intro Q.
       destruct (D4 Q) as [A B]. split; auto. rewrite fr_ist; auto.
-    - rewrite bfailed_after. intro Q. rewrite fr_ist; auto.
+    - rewrite bfailed_keep. intro Q. rewrite fr_ist; auto.
     - exact Pf.
   Qed.
 
-  Lemma link_cur_after : s_b s' = s_b s -> link_cur sh b s m -> link_cur sh b s' (m_after m e).
+  Lemma link_cur_keep : s_b s' = s_b s -> link_cur sh b s m -> link_cur sh b s' m'.
   Proof.
-    intros Eb [S T]. destruct (m_after_fields m e) as (F1 & _ & _ & F4). split.
+    intros Eb [S T]. split.
     - unfold started_rel in *. rewrite F1, S. cbn [scope_obj]. rewrite fr_ist; auto.
     - rewrite Eb. intros g Tg. rewrite F4. eapply grel_frame; [apply T; auto|]. intro j. apply fr_ist. reflexivity.
   Qed.
-End Foreign.
+
+End Keep.
 
 (* a handled event that is not about block b *)
 Lemma Rb_foreign sh b s s' m e :
@@ -222,12 +217,15 @@ Proof.
   exists (m_after m e). split; [unfold mstep; now rewrite (skip_step sh (SBlock b) m e (foreign_skips b m e Fe))|].
   split; [exact I'|]. split; [apply (common_after s); auto; now apply released_same|].
   assert (Cs : cur s' b <-> cur s b) by (unfold cur; now rewrite Ep, Ec).
+  destruct (m_after_fields m e) as (F1 & _ & _ & F4).
+  assert (Fr : forall o, obj_block o = Some b -> ist (s_img s') o = ist (s_img s) o).
+  { intros o Ho. unfold ist. rewrite Ei. f_equal. now apply (foreign_frame b). }
   destruct L as [[Cu Lc]|[[Nc Lb]|[Pa Ld]]].
-  - left. split; [now apply Cs|]. eapply link_cur_after; eauto.
-  - right. left. split; [intro Q; apply Nc; now apply Cs|]. eapply link_before_after; eauto.
+  - left. split; [now apply Cs|]. eapply link_cur_keep; eauto.
+  - right. left. split; [intro Q; apply Nc; now apply Cs|]. eapply link_before_keep; eauto.
   - right. right. split.
     + unfold past, after_pre in *. now rewrite Ep, Ec.
-    + eapply link_done_after; eauto. destruct I as [[P _] _]. eapply PF_handle; eauto. apply (ld_pf _ _ _ _ Ld).
+    + eapply link_done_keep; eauto. destruct I as [[P _] _]. eapply PF_handle; eauto. apply (ld_pf _ _ _ _ Ld).
 Qed.
 
 (* ---- the current block ---- *)
@@ -426,4 +424,335 @@ Proof.
       * left. split; [exact Cu'|]. split; [|apply Tr; now intros []].
         unfold started_rel in *. simpl. cbn [scope_obj] in S. rewrite S, Ui, ist_iset_same. simpl.
         destruct (ist (s_img s) (OBlock b)); try (now elim Ns); destruct Hs as [-> | ->]; reflexivity.
+Qed.
+
+(* ---- steps that keep the regime of block b ---- *)
+Lemma regimes_keep sh b s s' m m' :
+  regimes sh b s m ->
+  m_started m' = m_started m -> (forall g, m_track m' g = m_track m g) ->
+  (forall o, obj_block o = Some b -> ist (s_img s') o = ist (s_img s) o) ->
+  (s_ph s' = s_ph s \/ (s_ph s = PEnd /\ s_ph s' = PReleased)) -> s_cb s' = s_cb s ->
+  (cur s b -> s_b s' = s_b s) -> (PF sh s -> PF sh s') ->
+  regimes sh b s' m'.
+Proof.
+  intros L F1 F4 Fr Ep Ec Eb Pf.
+  assert (Cs : cur s' b <-> cur s b).
+  { unfold cur. rewrite Ec. destruct Ep as [-> | [E1 E2]]; [tauto|]. rewrite E1, E2. split; intros [Q _]; discriminate Q. }
+  destruct L as [[Cu Lc]|[[Nc Lb]|[Pa Ld]]].
+  - left. split; [now apply Cs|]. eapply link_cur_keep; eauto.
+  - right. left. split; [intro Q; apply Nc; now apply Cs|]. eapply link_before_keep; eauto.
+  - right. right. split.
+    + unfold past, after_pre in *. rewrite Ec. destruct Ep as [-> | [E1 E2]]; [exact Pa|].
+      rewrite E2. rewrite E1 in Pa. destruct Pa as [_ Q]. split; [repeat split; discriminate|].
+      destruct Q as [Q|[Q _]]; [now left|right; split; [exact Q|discriminate]].
+    + eapply link_done_keep; eauto. apply Pf. apply (ld_pf _ _ _ _ Ld).
+Qed.
+
+Lemma Rb_plan_write sh b s s' m stt r :
+  Rb sh b s m -> handle sh s (EvWrite OPlan stt 0 false r) = Some s' -> p_write sh s stt r = Some s ->
+  upd_spec s s' (EvWrite OPlan stt 0 false r) (s_g s) (s_b s) false -> s_reason s' = r ->
+  exists m', mstep sh (SBlock b) m (EvWrite OPlan stt 0 false r) = Some m' /\ Rb sh b s' m'.
+Proof.
+  intros [I (C & L)] H Hw U Hr. pose proof (inv_handle _ _ _ _ I H) as I'.
+  destruct U as [Ui Up Ug Ut Uc Ub Ul Uf]. cbn [ev_img] in Ui. destruct C as [C1 C2 C3].
+  set (c := {| c_st := stt; c_n := 0; c_ok := false |}) in *.
+  assert (Sync : forall o, iget (img_after (m_img m) OPlan c) o = iget (s_img s') o).
+  { intro o. rewrite Ui. now apply img_sync. }
+  assert (Rl : released s' = released s) by now apply released_same.
+  assert (Fr : forall o, obj_block o = Some b -> ist (s_img s') o = ist (s_img s) o).
+  { intros o Ho. rewrite Ui. apply ist_iset_other. intro Q. subst o. discriminate Ho. }
+  assert (Reg : forall m', m_started m' = m_started m -> (forall g, m_track m' g = m_track m g) -> regimes sh b s' m').
+  { intros m' F1 F4. eapply regimes_keep; eauto. destruct I as [[P _] _]. intro Pf. eapply PF_handle; eauto. }
+  unfold mstep. cbn [mstep_d]. fold c.
+  destruct (cell_eqb (iget (m_img m) OPlan) c) eqn:Rep.
+  - exists m. split; [reflexivity|]. split; [exact I'|]. split; [|apply Reg; auto].
+    assert (Eq : iget (s_img s) OPlan = c) by (rewrite <- C1; now apply cell_eqb_eq).
+    constructor; [| |congruence].
+    + intro o. rewrite <- Sync. unfold img_after. now rewrite Rep.
+    + rewrite C2, Hr. unfold p_write in Hw. destruct I as [_ Y]. destruct (s_ph s) eqn:Ph; try discriminate Hw.
+      * destruct (status_eqb stt Running && reason_eqb r FRUnknown) eqn:G; [|discriminate].
+        apply andb_true_iff in G as [_ G]. apply reason_eqb_eq in G. subst r. now apply (y_r0 _ Y).
+      * exfalso. destruct (is_terminal stt) eqn:T1; [|discriminate Hw].
+        destruct (is_terminal (ist (s_img s) OPlan)) eqn:T2; [discriminate Hw|].
+        unfold ist in T2. rewrite Eq in T2. simpl in T2. congruence.
+  - eexists. split; [reflexivity|]. split; [exact I'|]. split; [|apply Reg; auto; now intros []].
+    constructor; cbn [m_img m_reason m_rel with_reason with_img]; [|auto|congruence].
+    intro o. rewrite <- Sync. unfold img_after. now rewrite Rep.
+Qed.
+
+(* ---- Wait returns: the release clauses of a block scope ---- *)
+Lemma k_init_facts n : k_open (k_init n) = false /\ k_failed (k_init n) = false /\ k_runs (k_init n) = 0.
+Proof. unfold k_open, k_failed. simpl. rewrite failed_repeat_unmarked. auto. Qed.
+
+Lemma block_release_code sh b bs s m fin :
+  block_of sh b = Some bs -> inv sh s -> link_block sh b s m -> s_ph s = PEnd ->
+  is_terminal (ist (s_img s) OPlan) = true ->
+  image_agrees (all_objs sh) (s_img s) (s_reason s) fin = true ->
+  release_code sh fin (SBlock b) m = 0.
+Proof.
+  intros Hb [[P X] Y] (C & L) Ph Tm Ag. assert (En : ended s) by now left.
+  destruct L as [[[Q _] _]|[[_ Lb]|[_ Ld]]]; [rewrite Ph in Q; discriminate| |].
+  - (* nothing of the block ever happened *)
+    destruct Lb as [L1 L2 _ _ _].
+    pose proof (L2 GBypass eq_refl) as Eb. pose proof (L2 GCont eq_refl) as Ec. pose proof (L2 GDeferred eq_refl) as Ed.
+    cbn [m_track] in *. unfold release_code, entered. rewrite Eb, Ec, Ed, L1.
+    destruct (k_init_facts (group_size sh (SBlock b) GBypass)) as (A1 & _ & _).
+    destruct (k_init_facts (group_size sh (SBlock b) GCont)) as (B1 & B2 & _).
+    destruct (k_init_facts (group_size sh (SBlock b) GDeferred)) as (D1 & D2 & D3).
+    rewrite A1, B1, B2, D1, D2, D3. cbn. now rewrite andb_false_r.
+  - destruct Ld as [D1 D2 D3 D4 D5 (_ & Nt & Cp)].
+    set (f := ist (s_img s)) in *.
+    assert (Lb : b < length (sh_blocks sh)) by (eapply block_of_lt; eauto).
+    assert (Ab : fin_st fin (OBlock b) = f (OBlock b)) by (eapply agrees_status; eauto using in_all_block).
+    assert (Ap : fin_st fin OPlan = f OPlan) by (eapply agrees_status; eauto using in_all_plan).
+    assert (Ar : im_reason fin = s_reason s) by (eapply agrees_reason; eauto).
+    assert (Agb : forall g, has sh (SBlock b) g = true -> fin_st fin (OChecks (SBlock b) g) = f (OChecks (SBlock b) g)).
+    { intros g Hg. eapply agrees_status; eauto. eapply in_all_bgroup; eauto. now rewrite <- (has_bpres sh b bs Hb). }
+    pose proof (pi_final _ _ P En Tm) as Fs. pose proof (x_reason _ _ X En Tm) as Fr.
+    pose proof (final_is_stage _ _ P X En Nt) as Fi. fold f in Fs, Fr, Fi.
+    unfold release_code. cbn [scope_obj].
+    pose proof (D1 GBypass eq_refl) as O1. pose proof (D1 GCont eq_refl) as O2. pose proof (D1 GDeferred eq_refl) as O3.
+    cbn [m_track] in O1, O2, O3. rewrite O1, O2, O3. cbn [orb].
+    assert (C7 : has sh (SBlock b) GDeferred
+                 && negb (Nat.eqb (k_runs (m_def m)) (if entered sh (SBlock b) m then 1 else 0)) = false).
+    { destruct (has sh (SBlock b) GDeferred) eqn:E; auto. rewrite (D2 eq_refl), Nat.eqb_refl. reflexivity. }
+    rewrite C7, Ab.
+    assert (C10 : k_failed (m_cont m) && negb (status_eqb (f (OBlock b)) Failed && grp_failed sh fin (SBlock b) GCont) = false).
+    { destruct (k_failed (m_cont m)) eqn:E; auto. destruct (D3 eq_refl) as [Hc Ic].
+      rewrite D5 by (unfold bfailed; now rewrite E). unfold grp_failed, failed_in_fin. rewrite Hc, (Agb _ Hc). fold f in Ic. now rewrite Ic. }
+    rewrite C10.
+    assert (C11 : k_failed (m_def m) && negb (status_eqb (f (OBlock b)) Failed && grp_failed sh fin (SBlock b) GDeferred) = false).
+    { destruct (k_failed (m_def m)) eqn:E; auto. destruct (D4 eq_refl) as [Hc Ic].
+      rewrite D5 by (unfold bfailed; rewrite E; now rewrite orb_true_r). unfold grp_failed, failed_in_fin.
+      rewrite Hc, (Agb _ Hc). fold f in Ic. now rewrite Ic. }
+    rewrite C11. fold (bfailed m). destruct (bfailed m) eqn:Bf; [|reflexivity].
+    (* the plan: Failed with reason Block, or ContCheck of the plan *)
+    assert (Bb : bbad sh f = true) by (eapply bbad_intro; eauto).
+    assert (Gp : gbad sh f GPre = false).
+    { unfold gbad. unfold closed_ok in Cp. destruct (ppres sh GPre); auto.
+      pose proof (pi_img _ _ P GPre) as Gi. cbn [tget] in Gi. rewrite Cp in Gi. simpl in Gi. unfold f. now rewrite Gi. }
+    assert (Agp : grp_failed sh fin SPlan GCont = gbad sh f GCont).
+    { unfold grp_failed, gbad, failed_in_fin. rewrite has_ppres. destruct (ppres sh GCont) eqn:E; auto. simpl.
+      now rewrite (agrees_status _ _ _ _ _ Ag (in_all_group _ _ E)). }
+    unfold failed_in_fin. rewrite Ap, Fs, (c_reason _ _ C), Fr, Fi, Agp. cbn [fst snd].
+    unfold stage_of. rewrite Gp, Bb. destruct (gbad sh f GCont); reflexivity.
+Qed.
+
+Lemma chk_op_plan_foreign b e g op : chk_op e = Some (SPlan, g, op) -> foreign b e.
+Proof.
+  intro H. destruct (chk_op_inv _ _ _ _ H) as
+    [(i & -> & _)|[(i & o & -> & _)|[(i & r & -> & _)|[(i & n & ok & r & -> & _)
+    |[(i & st & n & ok & r & -> & _)|(st & r & -> & _)]]]]]; repeat split; simpl; discriminate.
+Qed.
+
+Lemma other_block_foreign b b' e : ev_block e = Some b' -> b' <> b -> foreign b e.
+Proof.
+  intros He Ne. repeat split.
+  - rewrite He. intro Q. injection Q as Q. auto.
+  - intros st n ok r ->. discriminate He.
+  - intros fin ->. discriminate He.
+Qed.
+
+Lemma Rb_handle sh b bs s m e s' :
+  block_of sh b = Some bs -> Rb sh b s m -> handle sh s e = Some s' ->
+  exists m', mstep sh (SBlock b) m e = Some m' /\ Rb sh b s' m'.
+Proof.
+  intros Hb R H. pose proof R as [I (C & L)]. pose proof (inv_handle _ _ _ _ I H) as I'.
+  destruct (handle_cases _ _ _ _ H) as
+    [g op x owed Hc Ha _ U Er|b' bs' g op x owed Hc Cb Ha _ U Er|b' bs' q sq sq' owed Cb Hq Ht U Er
+    |b' bs' stt r -> Cb Hw U Er|stt r -> Hw U Hr|a l -> Hl E1 E2 E3 E4 E5 E6 _ _ Er|snap -> ->
+    |fin -> Ph Tm Ag E1 E2 E3 E4 E5 E6 _ Er].
+  - destruct U as [Ui Up Ug Ut Uc Ub Ul Uf]. eapply Rb_foreign; eauto. eapply chk_op_plan_foreign; eauto.
+  - destruct (cur_block_spec _ _ _ _ Cb) as (Ph & Eb & Hb'). destruct (Nat.eq_dec b' b) as [->|Ne].
+    + rewrite Hb in Hb'. injection Hb' as <-. eapply Rb_block_chk; eauto. split; auto.
+    + destruct U as [Ui Up Ug Ut Uc Ub Ul Uf]. eapply Rb_foreign; eauto.
+      * eapply other_block_foreign; eauto. eapply chk_op_block; eauto.
+      * intros [_ Q]. congruence.
+  - destruct (cur_block_spec _ _ _ _ Cb) as (Ph & Eb & Hb'). destruct (Nat.eq_dec b' b) as [->|Ne].
+    + rewrite Hb in Hb'. injection Hb' as <-. eapply Rb_seq; eauto. split; auto.
+    + destruct U as [Ui Up Ug Ut Uc Ub Ul Uf]. eapply Rb_foreign; eauto.
+      * eapply other_block_foreign; eauto. eapply seq_trans_block; eauto.
+      * intros [_ Q]. congruence.
+  - destruct (cur_block_spec _ _ _ _ Cb) as (Ph & Eb & Hb'). destruct (Nat.eq_dec b' b) as [->|Ne].
+    + eapply Rb_block_write; eauto. split; auto.
+    + destruct U as [Ui Up Ug Ut Uc Ub Ul Uf]. eapply Rb_foreign; eauto.
+      * eapply other_block_foreign; eauto. reflexivity.
+  - eapply Rb_plan_write; eauto.
+  - exists m. split; [unfold mstep; cbn [mstep_d is_overrun negb]; now rewrite andb_false_r|].
+    split; [exact I'|]. destruct C as [C1 C2 C3]. split.
+    + constructor; rewrite ?E1, ?Er; auto. now rewrite (released_same s s').
+    + destruct I as [[P _] _].
+      eapply (regimes_keep sh b s s' m m);
+        [exact L|reflexivity|reflexivity|intros o _; now rewrite E1|left; exact E2
+        |exact E5|intros _; exact E6|intro Pf; eapply PF_handle; eauto].
+  - exists m. split; [reflexivity|exact R].
+  - destruct C as [C1 C2 C3].
+    assert (Lv : m_rel m = false) by (rewrite C3; apply not_released; rewrite Ph; discriminate).
+    exists (with_rel m). split.
+    + unfold mstep. cbn [mstep_d]. rewrite Lv.
+      now rewrite (block_release_code sh b bs s m fin Hb I (conj (Build_common _ _ C1 C2 C3) L) Ph Tm Ag).
+    + split; [exact I'|]. split.
+      * constructor; simpl; rewrite ?E1, ?Er; auto. unfold released. now rewrite E2.
+      * destruct I as [[P _] _].
+        eapply (regimes_keep sh b s s' m (with_rel m));
+          [exact L|reflexivity|now intros []|intros o _; now rewrite E1|right; split; [exact Ph|exact E2]
+          |exact E5|intros _; exact E6|intro Pf; eapply PF_handle; eauto].
+Qed.
+
+(* ---- the block ends: from the current-block relation to the frozen one ---- *)
+Lemma cur_to_done sh b bs s m f :
+  block_of sh b = Some bs -> inv sh s -> cur s b -> link_cur sh b s m ->
+  b_eps bs (s_img s) b (p_visible s) (s_b s) = Some (BFinished f) ->
+  forall s1, s_img s1 = s_img s -> PF sh s1 -> link_done sh b s1 m.
+Proof.
+  intros Hb I Cu [S T] Be s1 Ei Pf. pose proof (cur_binv sh b bs Hb s I Cu) as Bn.
+  destruct I as [[P X] Y]. destruct Cu as [Ph Ec].
+  destruct (b_eps_finished _ _ _ _ _ _ Be) as (Bp & Nl & Ef & Eb).
+  destruct (bi_tab _ _ _ _ _ Bn) as [A Tb]. rewrite Bp in Tb. cbn [bstage] in Tb. cbn zeta in Tb.
+  pose proof (bi_img _ _ _ _ _ Bn) as Gi.
+  (* every tracked group is idle *)
+  assert (Idle : forall g, tracked g = true -> g_is_idle (tget (b_g (s_b s)) g) = true).
+  { intros g Tg. destruct Tb as [(E1 & E2 & E3 & E4 & E5 & _)|(Nb & _ & Lc & _ & Id)].
+    - destruct g; try discriminate Tg; cbn [tget]; rewrite ?E1, ?E3, ?E5; reflexivity.
+    - destruct g; try discriminate Tg; cbn [tget].
+      + eapply not_taken_idle; eauto.
+      + unfold cont_late in Lc. destruct (bpres bs GCont).
+        * destruct Lc as (_ & Hn & Hd). destruct (b_thr (s_b s)); [destruct (Hn eq_refl) as [v ->]; reflexivity|discriminate Nl|now apply Hd].
+        * destruct Lc as [-> _]. reflexivity.
+      + now apply idle_once_idle. }
+  assert (Tk : forall g, tracked g = true ->
+            k_open (m_track m g) = false
+            /\ k_failed (m_track m g) = status_eqb (ist (s_img s) (OChecks (SBlock b) g)) Failed
+            /\ k_runs (m_track m g) = g_runs (tget (b_g (s_b s)) g)
+            /\ (1 <= g_runs (tget (b_g (s_b s)) g) -> k_done (m_track m g) = true)).
+  { intros g Tg. eapply idle_track; [apply Idle; auto|apply T; auto|apply Gi]. }
+  destruct (Tk GBypass eq_refl) as (Ob & Fb & Rb' & Db). destruct (Tk GCont eq_refl) as (Oc & Fc & _ & _).
+  destruct (Tk GDeferred eq_refl) as (Od & Fd & Rd & _). cbn [m_track tget] in *.
+  assert (Abs : forall g, bpres bs g = false -> ist (s_img s) (OChecks (SBlock b) g) = NotStarted).
+  { intros g Pg. pose proof (Gi g) as Q. rewrite (A g Pg) in Q. exact Q. }
+  assert (St : m_started m = true).
+  { rewrite S. cbn [scope_obj]. destruct (status_eqb (ist (s_img s) (OBlock b)) NotStarted) eqn:E; auto.
+    apply status_eqb_eq in E. exfalso. rewrite <- Ec in E. apply (y_bstarted _ Y Ph); [rewrite Bp; discriminate|exact E]. }
+  constructor; rewrite ?Ei.
+  - intros g Tg. apply (Tk g Tg).
+  - rewrite (has_bpres sh b bs Hb). intro Pd. rewrite Rd. unfold entered. rewrite St, (has_bpres sh b bs Hb). cbn [andb].
+    destruct Tb as [(E1 & _ & _ & _ & E5 & _)|(Nb & _ & _ & _ & Id)].
+    + assert (Hbp : bpres bs GBypass = true).
+      { destruct (bpres bs GBypass) eqn:E; auto. specialize (A GBypass E). cbn [tget] in A. unfold g0 in A. congruence. }
+      pose proof (Gi GBypass) as Q. cbn [tget] in Q. rewrite E1 in Q. simpl in Q.
+      rewrite Hbp, Fb, Q, E5. simpl. now rewrite andb_false_r.
+    + assert (Ent : negb (bpres bs GBypass) || k_done (m_byp m) && k_failed (m_byp m) = true).
+      { unfold not_taken in Nb. destruct (bpres bs GBypass); [|reflexivity]. cbn [negb orb].
+        rewrite Db by (rewrite Nb; simpl; lia). pose proof (Gi GBypass) as Q. cbn [tget] in Q. rewrite Nb in Q. simpl in Q.
+        now rewrite Fb, Q. }
+      rewrite Ent.
+      assert (Nbt : ~ btaken (s_b s)).
+      { intro Q. unfold btaken in Q. unfold not_taken in Nb. destruct (bpres bs GBypass); unfold g0 in *; congruence. }
+      pose proof (x_bdef _ _ X Ph bs) as Xd. rewrite Ec in Xd. specialize (Xd Hb Bp Nbt Pd).
+      destruct Id as [E|[v E]]; [now elim Xd|]. now rewrite E.
+  - intro Q. rewrite Fc in Q. apply status_eqb_eq in Q. split; [|exact Q].
+    rewrite (has_bpres sh b bs Hb). destruct (bpres bs GCont) eqn:E; auto. rewrite (Abs _ E) in Q. discriminate.
+  - intro Q. rewrite Fd in Q. apply status_eqb_eq in Q. split; [|exact Q].
+    rewrite (has_bpres sh b bs Hb). destruct (bpres bs GDeferred) eqn:E; auto. rewrite (Abs _ E) in Q. discriminate.
+  - intro Bf. rewrite Eb. destruct (b_cause (s_b s)) eqn:Cs; [reflexivity|]. exfalso.
+    pose proof (bi_fine _ _ _ _ _ Bn Cs) as Fw. unfold fine_w in Fw. rewrite Bp in Fw. cbn [bstage] in Fw.
+    destruct Tb as [(_ & _ & E3 & _ & E5 & _)|(Nb & _ & _ & _ & _)].
+    + unfold bfailed in Bf. rewrite Fc, Fd in Bf.
+      pose proof (Gi GCont) as Q1. pose proof (Gi GDeferred) as Q2. cbn [tget] in Q1, Q2. rewrite E3 in Q1. rewrite E5 in Q2.
+      simpl in Q1, Q2. rewrite Q1, Q2 in Bf. discriminate.
+    + assert (Nbt : ~ btaken (s_b s)).
+      { intro Q. unfold btaken in Q. unfold not_taken in Nb. destruct (bpres bs GBypass); unfold g0 in *; congruence. }
+      destruct (Fw Nbt) as (_ & _ & _ & _ & Cd & Cf & Ct).
+      unfold bfailed in Bf. rewrite Fc, Fd in Bf.
+      assert (Z1 : status_eqb (ist (s_img s) (OChecks (SBlock b) GCont)) Failed = false).
+      { destruct (bpres bs GCont) eqn:E; [|now rewrite (Abs _ E)].
+        assert (Td : b_thr (s_b s) = TDrained) by (destruct (b_thr (s_b s)); [now elim (Ct eq_refl)|discriminate Nl|reflexivity]).
+        destruct (Cf Td eq_refl) as [r Er]. pose proof (Gi GCont) as Q. cbn [tget] in Q. rewrite Er in Q. simpl in Q. now rewrite Q. }
+      assert (Z2 : status_eqb (ist (s_img s) (OChecks (SBlock b) GDeferred)) Failed = false).
+      { unfold closed_ok in Cd. destruct (bpres bs GDeferred) eqn:E; [|now rewrite (Abs _ E)].
+        pose proof (Gi GDeferred) as Q. cbn [tget] in Q. rewrite Cd in Q. simpl in Q. now rewrite Q. }
+      rewrite Z1, Z2 in Bf. discriminate.
+  - exact Pf.
+Qed.
+
+(* ---- block b is entered ---- *)
+Lemma before_to_cur sh b bs s m s1 :
+  block_of sh b = Some bs -> link_before sh b s m -> s_img s1 = s_img s -> s_b s1 = block_start sh b ->
+  link_cur sh b s1 m.
+Proof.
+  intros Hb [L1 L2 L3 L4 L5] Ei Eb. split.
+  - unfold started_rel. rewrite L1, Ei. cbn [scope_obj]. now rewrite L3.
+  - rewrite Eb, Ei. unfold block_start. rewrite Hb. intros g Tg. rewrite L2 by auto.
+    assert (E0 : tget (b_g (b_init bs)) g = g0) by (destruct g; reflexivity). rewrite E0.
+    apply grel_init. intros i _. apply L4.
+Qed.
+
+Lemma Rb_eps sh b bs s m s1 :
+  block_of sh b = Some bs -> Rb sh b s m -> eps sh s = Some s1 -> Rb sh b s1 m.
+Proof.
+  intros Hb [I (C & L)] H. pose proof (inv_eps _ _ _ I H) as I1. split; [exact I1|].
+  destruct (eps_cases _ _ _ H) as [Ei Er _ _ _ [_ F2] [T1 T2] Bm]. destruct C as [C1 C2 C3].
+  split.
+  { constructor; rewrite ?Ei, ?Er; auto. rewrite C3. now rewrite !not_released. }
+  pose proof I as [[P _] _].
+  assert (Pf1 : PF sh s -> PF sh s1) by (intro Q; eapply PF_eps; eauto).
+  destruct L as [[Cu Lc]|[[Nc Lb]|[Pa Ld]]].
+  - (* block b is the current block *)
+    pose proof Cu as [Ph Ec].
+    destruct Bm as [_ _ _ Hn|Pp _ _ _|bs' _ Ph1 Ec1 Hb' Be|bs' _ Ph1 Ec1 Eb1 Hb' Be|bs' _ Ph1 Ec1 Eb1 Hb' Be].
+    + destruct (Hn Ph) as [Q _]. rewrite Ec, Hb in Q. discriminate.
+    + rewrite Ph in Pp. discriminate.
+    + left. split; [split; congruence|]. destruct Lc as [S T]. split.
+      * unfold started_rel. now rewrite Ei.
+      * rewrite Ei. rewrite Ec in Be. destruct (b_eps_stay _ _ _ _ _ _ Be) as [Ts _]. eapply tracks_rel_settle; eauto.
+    + right. right. rewrite Ec, Hb in Hb'. injection Hb' as <-. rewrite Ec in Be. split.
+      * split; [unfold after_pre; rewrite Ph1; repeat split; discriminate|]. right. split; [congruence|rewrite Ph1; discriminate].
+      * apply (cur_to_done sh b bs s m true Hb I Cu Lc Be s1 Ei). apply Pf1. now apply PF_blocks.
+    + right. right. rewrite Ec, Hb in Hb'. injection Hb' as <-. rewrite Ec in Be. split.
+      * split; [unfold after_pre; rewrite Ph1; repeat split; discriminate|]. left. lia.
+      * apply (cur_to_done sh b bs s m false Hb I Cu Lc Be s1 Ei). apply Pf1. now apply PF_blocks.
+  - (* nothing of block b has happened *)
+    assert (Lb1 : link_before sh b s1 m).
+    { destruct Lb as [L1 L2 L3 L4 L5]. constructor; rewrite ?Ei; auto. }
+    destruct Bm as [Ec1 Eb1 Np _|Pp Ph1 Ec1 Eb1|bs' Ph Ph1 Ec1 Hb' Be|bs' _ Ph1 Ec1 Eb1 Hb' Be|bs' Ph Ph1 Ec1 Eb1 Hb' Be].
+    + right. left. split; [intros [Q _]; now elim Np|exact Lb1].
+    + destruct (Nat.eq_dec b 0) as [->|Ne].
+      * left. split; [split; auto|]. eapply before_to_cur; eauto.
+      * right. left. split; [intros [_ Q]; lia|exact Lb1].
+    + right. left. split; [|exact Lb1]. intros [_ Q]. apply Nc. split; congruence.
+    + right. left. split; [|exact Lb1]. intros [Q _]. rewrite Ph1 in Q. discriminate.
+    + destruct (Nat.eq_dec b (S (s_cb s))) as [->|Ne].
+      * left. split; [split; auto|]. eapply before_to_cur; eauto.
+      * right. left. split; [intros [_ Q]; lia|exact Lb1].
+  - (* block b is over *)
+    right. right. pose proof (ld_pf _ _ _ _ Ld) as Pf. pose proof (Pf1 Pf) as Pf'. split.
+    + destruct Pa as [(N1 & N2 & N3) Q]. split; [apply Pf'|].
+      destruct Bm as [Ec1 Eb1 Np _|Pp _ _ _|bs' Ph Ph1 Ec1 Hb' Be|bs' _ Ph1 Ec1 Eb1 Hb' Be|bs' Ph Ph1 Ec1 Eb1 Hb' Be].
+      * rewrite Ec1. destruct Q as [Q|[Q _]]; [now left|right; split; auto].
+      * now elim N3.
+      * rewrite Ec1. destruct Q as [Q|[_ Q]]; [now left|now elim Q].
+      * rewrite Ec1. destruct Q as [Q|[Q _]]; [now left|right; split; [exact Q|rewrite Ph1; discriminate]].
+      * rewrite Ec1. destruct Q as [Q|[_ Q]]; [left; lia|now elim Q].
+    + destruct Ld as [D1 D2 D3 D4 D5 _]. constructor; rewrite ?Ei; auto.
+Qed.
+
+Lemma link_block_init sh b : link_block sh b init (m_init sh (SBlock b)).
+Proof.
+  split; [constructor; reflexivity|]. right. left. split; [intros [Q _]; discriminate Q|].
+  constructor; try reflexivity.
+  - intros g Tg. destruct g; try discriminate Tg; reflexivity.
+  - intros g i. discriminate.
+Qed.
+
+(* a block scope: every accepted trace satisfies the monitor *)
+Theorem block_scope_holds sh b bs tr s :
+  block_of sh b = Some bs -> run sh init tr = Some s ->
+  exists m, mfold sh (SBlock b) (m_init sh (SBlock b)) tr = Some m /\ Rb sh b s m.
+Proof.
+  intros Hb H. rewrite mfold_mrun.
+  apply (product_run mst (mstep sh (SBlock b)) sh (Rb sh b)) with (s := init); auto.
+  - intros s0 m s1. apply (Rb_eps sh b bs); auto.
+  - intros s0 m e s'. apply (Rb_handle sh b bs); auto.
+  - intros s0 m e R St. exists m. split; [|exact R]. destruct R as [_ (C & _)]. eapply stutter_step; eauto.
+  - split; [|apply link_block_init]. apply (inv_reach sh []). reflexivity.
 Qed.
